@@ -409,8 +409,28 @@ func genCase(r *rand.Rand, idx int) caseSpec {
 	for len(cs.Steps) < n {
 		x := r.IntN(100)
 		switch {
-		case x < 46:
+		case x < 40:
 			cs.Steps = append(cs.Steps, genSet(r, key()))
+		case x < 46:
+			// repeat an earlier Set of the history with the identical value and a random subset of the metadata only
+			var prev *step
+			for i := len(cs.Steps) - 1; i >= 0; i-- {
+				if cs.Steps[i].Op == "set" && cs.Steps[i].Class != "nan" {
+					prev = &cs.Steps[i]
+					break
+				}
+			}
+			if prev == nil {
+				cs.Steps = append(cs.Steps, genSet(r, key()))
+				continue
+			}
+			st := *prev
+			st.Create, st.Overwrite = true, true
+			st.Meta = metaFor(1+r.IntN(31), r.IntN(5))
+			if r.IntN(2) == 0 {
+				cs.Steps = append(cs.Steps, step{Op: "sleep", Ms: []int{1100, int(cs.IdleSec+4) * 1000}[r.IntN(2)]})
+			}
+			cs.Steps = append(cs.Steps, st)
 		case x < 54:
 			// a typed value brought to its zero by an increment
 			k := key()
@@ -649,4 +669,120 @@ func genLongRandom(r *rand.Rand, idx int) caseSpec {
 		}
 	}
 	return cs
+}
+
+// ---------------------------------------------------------------------------
+// Metadata-only last changes: the final request on a key changes exactly a chosen subset of
+// {CreatedAt, CreatedBy, UpdatedAt, UpdatedBy, ExpiredAt} and leaves the value identical, on a
+// record that has been flushed (and in half of the cases evicted and reloaded) before.
+
+var metaFields = []string{"CA", "CB", "UA", "UB", "EA"}
+
+// metaFor returns a metaSpec that sets exactly the fields of mask (bit i = metaFields[i]) to
+// the variant-th valid choice of each field.
+func metaFor(mask, variant int) *metaSpec {
+	ts := []int{4, 8, 3, 2, 6} // valid timestamp choices
+	by := []int{2, 3, 4}       // valid (non-empty) identities
+	m := &metaSpec{}
+	if mask&1 != 0 {
+		m.CA = ts[variant%len(ts)]
+	}
+	if mask&2 != 0 {
+		m.CB = by[variant%len(by)]
+	}
+	if mask&4 != 0 {
+		m.UA = ts[(variant+1)%len(ts)]
+	}
+	if mask&8 != 0 {
+		m.UB = by[(variant+1)%len(by)]
+	}
+	if mask&16 != 0 {
+		m.EA = ts[(variant+2)%len(ts)]
+	}
+	return m
+}
+
+func maskName(mask int) string {
+	var fs []string
+	for i, f := range metaFields {
+		if mask&(1<<i) != 0 {
+			fs = append(fs, f)
+		}
+	}
+	return strings.Join(fs, "+")
+}
+
+func metaOnlyCases() []caseSpec {
+	var out []caseSpec
+	for _, ws := range []int64{1, 0} {
+		for _, cl := range []string{"idle", "restart"} {
+			for _, reloaded := range []bool{false, true} {
+				cs := caseSpec{Name: fmt.Sprintf("metaonly-w%d-%s-reloaded%v", ws, cl, reloaded), WriteSec: ws, IdleSec: 3, Close: cl,
+					Swamp: fmt.Sprintf("c05/o%d/%s%v", ws, cl, reloaded)}
+				var base, last []step
+				n := uint64(0)
+				for _, baseMeta := range []int{0, 31} { // record starts without any / with all metadata
+					sfx := fmt.Sprintf(":base%d", baseMeta)
+					var bm *metaSpec
+					if baseMeta != 0 {
+						bm = metaFor(baseMeta, 0)
+					}
+					kinds := []string{"int64", "string", "bytes", "uint8", "float64", "bool", "void"}
+					for mask := 1; mask < 32; mask++ {
+						n++
+						// Set with the identical value and only the chosen metadata fields
+						key := "set:" + maskName(mask) + sfx
+						st := step{Op: "set", Key: key, Kind: kinds[mask%len(kinds)], Class: "rand", Bits: 1000 + n, Meta: bm, Create: true, Overwrite: true}
+						if st.Kind == "bool" || st.Kind == "void" {
+							st.Class = "true"
+						}
+						base = append(base, st)
+						st.Meta = metaFor(mask, 1)
+						last = append(last, st)
+					}
+					// PatchTreasures: Meta can set UpdatedAt(now), UpdatedBy, ExpiredAt (or clear it); the ops leave the body as it is
+					for mask := 4; mask < 32; mask += 4 {
+						for vi, ops := range [][]int{nil, {1}} {
+							key := fmt.Sprintf("patch%d:%s%s", vi, maskName(mask), sfx)
+							base = append(base, step{Op: "set", Key: key, Kind: "bytes", Class: "msgpack", Meta: bm, Create: true, Overwrite: true})
+							p := &patchSpec{Ops: ops}
+							if vi == 0 {
+								p.ReqMeta = metaFor(mask, 1)
+							} else {
+								p.KeyMeta = metaFor(mask, 1)
+							}
+							last = append(last, step{Op: "patch", Key: key, Patch: p})
+						}
+					}
+					key := "patch:clearEA" + sfx
+					base = append(base, step{Op: "set", Key: key, Kind: "bytes", Class: "msgpack", Meta: bm, Create: true, Overwrite: true})
+					last = append(last, step{Op: "patch", Key: key, Patch: &patchSpec{ReqMeta: &metaSpec{}, Clear: true}})
+					// Increment*: SetIfExist on a typed record, SetIfNotExist on a valueless one (the value changes by one),
+					// and SetIfExist with a condition that is not met (value identical)
+					for mask := 1; mask < 32; mask += 2 + mask%3 {
+						n++
+						kind := numericKinds[mask%len(numericKinds)]
+						k1, k2, k3 := "incE:"+maskName(mask)+sfx, "incN:"+maskName(mask)+sfx, "incC:"+maskName(mask)+sfx
+						base = append(base,
+							step{Op: "set", Key: k1, Kind: kind, Class: "one", Meta: bm, Create: true, Overwrite: true},
+							step{Op: "set", Key: k2, Kind: "void", Class: "true", Meta: bm, Create: true, Overwrite: true},
+							step{Op: "set", Key: k3, Kind: kind, Class: "one", Meta: bm, Create: true, Overwrite: true})
+						last = append(last,
+							step{Op: "inc", Key: k1, Kind: kind, Class: "one", Meta2: metaFor(mask, 1)},
+							step{Op: "inc", Key: k2, Kind: kind, Class: "one", Meta: metaFor(mask, 1)},
+							step{Op: "inc", Key: k3, Kind: kind, Class: "one", Cond: 2, Meta2: metaFor(mask, 1)})
+					}
+				}
+				cs.Steps = append(cs.Steps, base...)
+				if reloaded {
+					cs.Steps = append(cs.Steps, step{Op: "sleep", Ms: int(cs.IdleSec+4) * 1000}) // flushed, evicted, loaded again by the next request
+				} else {
+					cs.Steps = append(cs.Steps, step{Op: "sleep", Ms: 1500}) // flushed by the write tick
+				}
+				cs.Steps = append(cs.Steps, last...)
+				out = append(out, cs)
+			}
+		}
+	}
+	return out
 }
